@@ -330,7 +330,74 @@ func marshalViaInterface(cs ...chunk) ([]byte, error) {
 	return p.marshal(true)
 }
 
+// c12Oversize: chunks whose variable part does not fit the 16-bit length fields (an abort
+// reason of 64 KiB supplied by the application, a SACK / FORWARD-TSN with more entries than a
+// chunk can hold).  The encoder may refuse them; it must not panic and must not emit a packet
+// that decodes to something else.
+func c12Oversize(j *Job) {
+	if !j.mine(0) {
+		return
+	}
+	try := func(name string, mk func() chunk, check func(d *wPacket) string) {
+		j.Stats.Cases++
+		j.Stats.Execs++
+		var raw []byte
+		var err error
+		func() {
+			defer func() {
+				if r := recover(); r != nil {
+					j.failSeq("codec.panic", "oversize/"+name, fmt.Sprintf("marshal panicked: %v", r), nil)
+					err = fmt.Errorf("panic")
+				}
+			}()
+			raw, err = marshalViaInterface(mk())
+		}()
+		if err != nil {
+			return // refused: fine
+		}
+		dec, derr := wDecode(raw)
+		if derr != nil {
+			j.failSeq("codec.oversize", "oversize/"+name, fmt.Sprintf("marshal returned a %d-byte packet without error that does not decode: %v", len(raw), derr), nil)
+			return
+		}
+		if msg := check(dec); msg != "" {
+			j.failSeq("codec.oversize", "oversize/"+name, fmt.Sprintf("marshal returned a %d-byte packet without error that decodes to something else: %s", len(raw), msg), nil)
+		}
+	}
+	for _, n := range []int{65000, 65526, 65527, 65528, 65531, 65532, 65533, 65535, 65536, 65546, 70000} {
+		n := n
+		reason := bytesN(n, 7)
+		try(fmt.Sprintf("abort-reason%d", n), func() chunk {
+			return &chunkAbort{errorCauses: []errorCause{&errorCauseUserInitiatedAbort{upperLayerAbortReason: reason}}}
+		}, func(d *wPacket) string {
+			if len(d.Chunks) != 1 || d.Chunks[0].Typ != wABORT || len(d.Chunks[0].Causes) != 1 {
+				return fmt.Sprintf("%d chunks", len(d.Chunks))
+			}
+			if got := d.Chunks[0].Causes[0].Val; !bytes.Equal(got, reason) {
+				return fmt.Sprintf("abort reason of %d bytes came out as %d bytes", n, len(got))
+			}
+			return ""
+		})
+	}
+	for _, n := range []int{16379, 16380, 16381, 20000} {
+		n := n
+		try(fmt.Sprintf("sack-gaps%d", n), func() chunk {
+			c := &chunkSelectiveAck{cumulativeTSNAck: 5, advertisedReceiverWindowCredit: 1000}
+			for i := 0; i < n; i++ {
+				c.gapAckBlocks = append(c.gapAckBlocks, gapAckBlock{start: uint16(2 + 2*i), end: uint16(2 + 2*i)})
+			}
+			return c
+		}, func(d *wPacket) string {
+			if len(d.Chunks) != 1 || d.Chunks[0].Typ != wSACK || len(d.Chunks[0].Gaps) != n {
+				return fmt.Sprintf("%d chunks, %d gap blocks instead of %d", len(d.Chunks), len(d.Chunks[0].Gaps), n)
+			}
+			return ""
+		})
+	}
+}
+
 func propC12(j *Job) {
+	c12Oversize(j)
 	samples := codecSamples()
 	standalone := make([][]byte, len(samples)) // chunk bytes incl. padding when sent alone
 	// (i) single chunks
